@@ -1,6 +1,6 @@
 #!/bin/bash
-# usage: save_seed.sh <PROP> <n> : copies a verified seed from /tmp/seed-<PROP>/<n> into seeded/<PROP>-<n>
-id=$1; n=$2; d=/verif/seeded/$id-$n; mkdir -p $d
+# usage: save_seed.sh <PROP> <n> [<dest n>] : copies a verified seed from /tmp/seed-<PROP>/<n> into seeded/<PROP>-<dest n>
+id=$1; n=$2; dn=${3:-$n}; d=/verif/seeded/$id-$dn; mkdir -p $d
 cp /tmp/seed-$id/$n/patch.diff $d/; cp /tmp/seed-$id/$n/demo.* $d/ 2>/dev/null; rm -f $d/demo.bin $d/demo.out $d/demo.build.log
 python3 - <<PY
 import json
